@@ -30,7 +30,8 @@ RULE = ("job = seed -> family.  'fault': honest two-endpoint handshake of a "
         "FFDH/ECDH/X25519/X448 group end with equal secrets.  distinct = "
         "digest(family, scenario, fault); non-trivial = fault fired / bad "
         "share emitted / group negotiated"
-        ' TLS 1.3 key shares also carry the honest point in compressed / hybrid / raw X9.62 encodings (must be refused).')
+        ' TLS 1.3 key shares also carry the honest point in compressed / hybrid / raw X9.62 encodings (must be refused).'
+        ' Abort-point oracle: after an invalid share the victim must not answer with ServerHello / ClientKeyExchange / Finished.')
 LEVEL_TEXT = ("Seeded fault injection at private-key operations and seeded "
               "search over invalid peer shares in live handshakes.  The "
               "pure clauses of C10 (sign/verify soundness and strictness "
